@@ -43,6 +43,14 @@ SUMMARY = {
  "C09-d": "ExternalAgent.Release skipped while the agent is Running: a SHUTDOWN subscriber busy with an event never gets its SHUTDOWN, is killed at the deadline",
  "C12-d": "runtime event rendered with buffer.WriteTo (drains): a repeated /next returns the same id with an empty body",
  "C18-d": "restore returns at once while init has not completed (extension still initialising) although the runtime is parked in restore/next",
+ "C03-f": "SetExternalAgentsRegisterCount moved after the launch loop: an extension that registers while a sibling is still being launched is not counted, the runtime is never started",
+ "C06-f": "graceful shutdown skipped when no extension is subscribed to SHUTDOWN: the extension processes of a failed environment are never killed",
+ "C07-f": "Server.Reset clears the reservation only when the reset succeeded: after a SHUTDOWN subscriber had to be killed the invocation never returns / every later one is AlreadyReserved",
+ "C08-f": "reinitialize no longer deletes the first fatal error: a fault reported while the reset shuts down is blamed on the next generation",
+ "C10-f": "doInvoke waits for the agents only if an *external* extension is subscribed to INVOKE: with an internal one the invocation ends (reservation released) while that extension is still busy",
+ "C11-f": "SetCount refused (below arrivals) still lowers the count",
+ "C12-f": "request-id middleware compares case-insensitively: a case-variant id is refused by the server only after the runtime state has moved",
+ "C15-f": "same change as C08-f, asked for under C15: InitRuntimeDone of the next generation carries the stale Extension.ExitError",
  "C04-e": "AwaitRuntimeReady of the invoke flow waits on the response gate: the invocation completes before the runtime asked for next",
  "C11-e": "a cancelled gate whose count is met returns success from AwaitGateCondition",
  "C13-e": "event validation of register only looks at the last element: an illegal event before a legal one registers a ghost / wrong error type",
